@@ -107,6 +107,8 @@ struct AssetMon {
     /// the last step raised a panic inside the instruction (partial effects possible)
     partial_last_step: bool,
     started: bool,
+    /// number of entries of the balance table in VM memory (the chain's max_inputs)
+    table_slots: u64,
 }
 
 impl AssetMon {
@@ -126,6 +128,7 @@ impl AssetMon {
             contracts: sc.world.contracts.iter().map(|c| c.id).collect(),
             partial_last_step: false,
             started: false,
+            table_slots: sc.world.params.tx_params().max_inputs() as u64,
         }
     }
 
@@ -147,6 +150,30 @@ impl AssetMon {
             }
             if val != Some(*value) {
                 rep.violation("C27|balance table|amount in memory differs from the internal free balance", format!("{at}: asset {asset} offset {off}: memory {val:?}, internal {value}"), || json!(null));
+            }
+        }
+        // the layout a program relies on (it is not told any offsets): after the 32-byte
+        // transaction id and the 32-byte base asset id, one 40-byte entry per asset in
+        // ascending order of the asset ids, the unused entries zero
+        let mut sorted: Vec<&(AssetId, u64, usize)> = s.balances.iter().collect();
+        sorted.sort_by_key(|b| b.0);
+        for (k, (asset, _, off)) in sorted.iter().enumerate() {
+            if *off as u64 != 64 + 40 * k as u64 {
+                rep.violation(
+                    "C27|balance table|entry is not at its place in the table sorted by asset id",
+                    format!("{at}: asset {asset} is entry {k} of {} in ascending order (offset {}), the VM keeps it at offset {off}", sorted.len(), 64 + 40 * k),
+                    || json!(null),
+                );
+                break;
+            }
+        }
+        let used = sorted.len() as u64;
+        if used < self.table_slots {
+            if let Some(rest) = s.bytes(64 + 40 * used, 40 * (self.table_slots - used)) {
+                rep.count("table_unused_entries_checked");
+                if rest.iter().any(|b| *b != 0) {
+                    rep.violation("C27|balance table|unused entry is not zero", format!("{at}: {used} entries in use of {}", self.table_slots), || json!(null));
+                }
             }
         }
     }
@@ -560,7 +587,7 @@ pub fn run(cfg: &Cfg) -> Report {
     let mons = |sc: &Scenario| -> Vec<Box<dyn StepMonitor>> { vec![Box::new(AssetMon::new(sc))] };
     let d = Drive { prop: "C27", stream: 27, quick: 30_000, thorough: 3_500_000, bus: BusOpts { capture_mem: true, max_steps: 20_000 }, opts: &opts, monitors: &mons, after: None };
     let mut rep = drive(cfg, &d);
-    rep.rule = "generated scripts+contracts (TR incl. to oneself, TRO, CALL with coins, MINT, BURN, SMO, reverts/panics at arbitrary points; gas price 0 in half of the cases, 1..3e6 in the other half; every third scenario with a random non-zero base asset id, chain id and max_inputs). (a) per single-stepped instruction: money receipts vs movement of the free balances (hook) and of the named contract balances in storage (shadow map = world before + receipts), debited account held the amount, $bal of a callee = forwarded amount, TRO wrote exactly the selected unset variable output, no free balance moves without a receipt; (b) at every boundary the balance table in memory = internal free balances; (c) at the end the per-asset ledger of the statement in u128 (inputs from the tx specification; reverted/panicked executions judged with contract balances := before, no mint/burn/message; refund = max fee - ceil((min_gas+gas_used)*price/factor) - tip), plus every (contract, asset) balance = before + receipts. class = (money opcode, context, end state)".into();
+    rep.rule = "generated scripts+contracts (TR incl. to oneself, TRO, CALL with coins, MINT, BURN, SMO, reverts/panics at arbitrary points; gas price 0 in half of the cases, 1..3e6 in the other half; every third scenario with a random non-zero base asset id, chain id and max_inputs). (a) per single-stepped instruction: money receipts vs movement of the free balances (hook) and of the named contract balances in storage (shadow map = world before + receipts), debited account held the amount, $bal of a callee = forwarded amount, TRO wrote exactly the selected unset variable output, no free balance moves without a receipt; (b) at every boundary the balance table in memory = internal free balances, laid out as 40-byte entries in ascending asset-id order from offset 64 with the unused entries zero; (c) at the end the per-asset ledger of the statement in u128 (inputs from the tx specification; reverted/panicked executions judged with contract balances := before, no mint/burn/message; refund = max fee - ceil((min_gas+gas_used)*price/factor) - tip), plus every (contract, asset) balance = before + receipts. class = (money opcode, context, end state)".into();
     rep.assume("Chargeable::min_gas of the repository is used for the intrinsic gas in the fee (fee arithmetic itself is C18's subject); gas used is the ScriptResult receipt's value");
     rep.assume("free balances are observed through hook H2 (verif_balances); contract balances are read from the MemoryStorage under the VM, which holds the uncommitted state");
     rep.note("for the base asset without a change output the refund is part of the balance left without a change output (nobody receives it), so that ledger does not constrain the fee");
